@@ -1,6 +1,7 @@
 import SimuVerif.Lemmas.C12_Centred
 import SimuVerif.Lemmas.C12_OrientClosed
 import SimuVerif.Lemmas.C12_Spectral
+import SimuVerif.Gen.NodeNormals
 /-
   C12 — volume, area, centroid, bounding box and normals are exact and frame-independent.
 
@@ -868,6 +869,45 @@ theorem longest_axis_follows_final (M N : V3 R → V3 R) (hM : LinIso M) (hN : L
       colOf cols' (axisColumn E') = -(M (colOf cols (axisColumn E))) := by
   obtain ⟨i', hi', _, hstrict'⟩ := strict_max_follows M N hM hN hMN hNM d c ps E E' cols cols' h h' i hi hstrict huniq
   exact longest_axis_follows_orthonormal M N hM hN hMN hNM d c ps E E' cols cols' h h' i i' hi hi' hstrict hstrict' huniq
+
+/-! ## the return statement: `return longest_axis.normalize();` (`Gen.NodeNormals.vnormalize`, regenerated from `vec3::normalize`) -/
+
+/-- what `get_cell_longest_axis` returns, given the output `(E, cols)` of `mat33::eigen_decomposition` -/
+def longestAxisOf (fx : FX R) (E : V3 R) (cols : V3 R × V3 R × V3 R) : V3 R :=
+  Simu.Gen.NodeNormals.vnormalize fx (colOf cols (axisColumn E))
+
+/-- `vec3::normalize` leaves a unit vector unchanged (exact arithmetic; `sqrt 1 = 1`, and `1 == 0` is false) -/
+theorem vnormalize_unit (fx : FX R) (hs : fx.sqrt 1 = 1) (he : fx.eqb 1 0 = false) (v : V3 R) (hv : V3.normSq v = 1) :
+    Simu.Gen.NodeNormals.vnormalize fx v = v := by
+  unfold Simu.Gen.NodeNormals.vnormalize
+  simp only [hv, hs, lit_zero, he, if_true]
+  apply V3.ext' <;> simp
+
+/-- the function returns exactly the selected column of the solver's output -/
+theorem longestAxis_is_selected_column (fx : FX R) (hs : fx.sqrt 1 = 1) (he : fx.eqb 1 0 = false)
+    (C : V3 R → V3 R) (E : V3 R) (cols : V3 R × V3 R × V3 R) (h : EigSolverSpec C E cols) :
+    longestAxisOf fx E cols = colOf cols (axisColumn E) := by
+  have hk := axisColumn_lt_three E
+  have hu : V3.normSq (colOf cols (axisColumn E)) = 1 := by
+    (obtain h0 | h1 | h2 : axisColumn E = 0 ∨ axisColumn E = 1 ∨ axisColumn E = 2 := by omega)
+    · rw [h0]; exact h.ortho.aa
+    · rw [h1]; exact h.ortho.bb
+    · rw [h2]; exact h.ortho.cc
+  exact vnormalize_unit fx hs he _ hu
+
+/-- the longest axis REPORTED by the function follows the cell (selection, normalisation and spectrum inside the model) -/
+theorem reported_longest_axis_follows (fx : FX R) (hs : fx.sqrt 1 = 1) (he : fx.eqb 1 0 = false)
+    (M N : V3 R → V3 R) (hM : LinIso M) (hN : LinIso N)
+    (hMN : ∀ x, M (N x) = x) (hNM : ∀ x, N (M x) = x) (d c : V3 R) (ps : List (V3 R))
+    (E E' : V3 R) (cols cols' : V3 R × V3 R × V3 R)
+    (h : EigSolverSpec (covApply (covRows (covOf c ps))) E cols)
+    (h' : EigSolverSpec (covApply (covRows (covOf (M c + d) (ps.map (fun p => M p + d))))) E' cols')
+    (i : Nat) (hi : i < 3)
+    (hstrict : ∀ j, j < 3 → j ≠ i → comp E j < comp E i)
+    (huniq : ∀ w, covApply (covRows (covOf c ps)) w = w * comp E i → ∃ k : R, w = colOf cols i * k) :
+    longestAxisOf fx E' cols' = M (longestAxisOf fx E cols) ∨ longestAxisOf fx E' cols' = -(M (longestAxisOf fx E cols)) := by
+  rw [longestAxis_is_selected_column fx hs he _ E cols h, longestAxis_is_selected_column fx hs he _ E' cols' h']
+  exact longest_axis_follows_final M N hM hN hMN hNM d c ps E E' cols cols' h h' i hi hstrict huniq
 
 /-! ## every rotation / reflection matrix is covered -/
 
